@@ -3,6 +3,7 @@ package main
 import (
 	"fmt"
 	"go/types"
+	"sort"
 	"strings"
 
 	"golang.org/x/tools/go/ssa"
@@ -72,6 +73,17 @@ func (ex *Exec) intrinsic(fn *ssa.Function, args []Value) (Value, bool) {
 			me := ex.sch.cur
 			ex.wait(func() bool { return ex.othersQuiescent(me) }, "quiesce")
 			return nil, true
+		case "verifAssertNoLiveThreads":
+			// every worker thread must have finished; the violation carries the blocking sites
+			if sites := ex.liveSites(); len(sites) > 0 {
+				sort.Strings(sites)
+				ex.violation("assert", ex.describe(args[0]), nil)
+				if n := len(ex.viols); n > 0 {
+					ex.viols[n-1].detail = strings.Join(sites, "; ")
+				}
+				panic(pathEnd{"assume", "live threads"})
+			}
+			return nil, true
 		case "verifLiveThreads":
 			return ex.ts.Const(64, uint64(ex.liveThreads())), true
 		case "verifNondetRange":
@@ -105,6 +117,10 @@ func (ex *Exec) intrinsic(fn *ssa.Function, args []Value) (Value, bool) {
 		return r, true
 	}
 	if r, ok := ex.strIntrinsic(fn, name, args); ok {
+		ex.stubsUsed[name]++
+		return r, true
+	}
+	if r, ok := ex.codecIntrinsic(fn, name, args); ok {
 		ex.stubsUsed[name]++
 		return r, true
 	}
